@@ -321,6 +321,8 @@ class Gen:
                 rhs = L.fn("exists", rhs)
             if rhs["k"] == "eq":  # the grammar has no equality on the right of an assignment
                 rhs = L.fn("and", rhs, L.fn("yes"))
+            if rhs["k"] == "fn" and rhs["name"] in ("none", "header_name", "header_index", "end", "get", "peek"):
+                kind = "any"     # none() has the value None: a tracking entry holding None prints as the whole dictionary (IMPL)
         else:
             rhs = self.anyval(1)
         if rhs["k"] == "fn" and rhs["name"] in ("count", "has_matches") and not rhs["args"]:
@@ -397,7 +399,9 @@ class Gen:
         if c == "push":
             return self.push()
         if c == "tally":
-            return L.fn("tally", self.href(r.choice(strict_any)), quals=[self.fresh("t")])
+            # a column a short row does not reach is tallied under the key "None"
+            col = self.href(r.choice(strict_any)) if (r.random() < 0.5 or self.no_headers) else self.href_any()
+            return L.fn("tally", col, quals=[self.fresh("t")])
         if c == "first":
             return L.fn("first", self.href(r.choice(strict_any)), quals=[self.fresh("f")])
         if c == "countx":
@@ -466,7 +470,7 @@ class Gen:
         opts += ["stack"]
         c = r.choice(opts)
         if c == "csvpath":
-            return L.t_ref("csvpath", r.choice(["count_lines", "line_number", "count_matches", "count_scans", "total_lines"]))
+            return L.t_ref("csvpath", r.choice(["count_lines", "line_number", "count_matches", "count_scans", "total_lines", "valid", "stopped"]))
         if c == "undef":
             return L.t_ref("variables", "nosuchvar")
         if c == "var":
@@ -496,7 +500,15 @@ class Gen:
         if "once" in quals:
             # the once-marker is keyed by the component's text: two identical print.once components share it (IMPL)
             items.append(L.t_text(f" ({self.nprint})"))
-        return L.print_node(items, quals=quals, uid=f"print{self.nprint}")
+        n = L.print_node(items, quals=quals, uid=f"print{self.nprint}")
+        x = r.random()
+        if x < 0.12:
+            n["args"].append(L.term(r.choice(["audit", "errs"])))               # a named printout stream
+        elif x < 0.24:
+            # the follow-up is a side-effect function: a value producer (counter, sum ...) would already act when print's
+            # argument values are validated, before and whether or not the entry is printed (IMPL, CHOICES.md)
+            n["args"].append(L.fn(r.choice(["push", "push", "push_distinct"]), L.term("stk2"), L.term(self.nprint)))
+        return n
 
     # ---- replace / append / collect: the csvpath rewrites or projects the line (spec/Eval.tla, st.line / st.headers / st.limit)
     def rewrite_component(self):
